@@ -16,7 +16,7 @@ MANIFEST = dict(
          "silence when only foreign bits change; over any history of watch/unwatch/patch the observer list never holds duplicates and every call "
          "carries old != new (induction). Tie: translator for the intersection filter + differential correspondence of both real structure classes "
          "(GeckoStructure, GeckoAsyncStructure) with recording observers against the model driver."
-         ' Since session 3: histories include bound-method observers (equal, not identical), wholesale loads (set_status_block) followed by patches, and updates that flip the temperature unit under watched temperature items. State inventory (notification_state_inventory): status_block_changed and the value decoders write no attribute; both structures write only the block. Observers that change the registration list from inside their callback (unwatch themselves or others, unwatch_all, watch): dispatch model Model/ObserverDispatch.lean, theorems C03.Reentrant.*, real structures of both classes. Session 5: notification_walk_keeps_no_state (Observable._on_change / watch / unwatch assign nothing); the smallest change of a stored number (one or two steps, whole field / low byte / window), which a presentation coarser than the stored reading would swallow. Round 14: one GeckoAsyncSpa object connected, disconnected and connected again (real `_connect` wiring); the spa changes watched items on every connection. Round 15: observers of a second blocking session; observers read the other polled items from inside their callback (the client having polled them before the update) and must see the installed block through every item. Round 16: histories in which an item is watched, left without observers during a change, and watched again (identical refresh stays silent, a change back to the value reported last fires); blocking_declarations_are_made_for_each_connection.',
+         ' Since session 3: histories include bound-method observers (equal, not identical), wholesale loads (set_status_block) followed by patches, and updates that flip the temperature unit under watched temperature items. State inventory (notification_state_inventory): status_block_changed and the value decoders write no attribute; both structures write only the block. Observers that change the registration list from inside their callback (unwatch themselves or others, unwatch_all, watch): dispatch model Model/ObserverDispatch.lean, theorems C03.Reentrant.*, real structures of both classes. Session 5: notification_walk_keeps_no_state (Observable._on_change / watch / unwatch assign nothing); the smallest change of a stored number (one or two steps, whole field / low byte / window), which a presentation coarser than the stored reading would swallow. Round 14: one GeckoAsyncSpa object connected, disconnected and connected again (real `_connect` wiring); the spa changes watched items on every connection. Round 15: observers of a second blocking session; observers read the other polled items from inside their callback (the client having polled them before the update) and must see the installed block through every item. Round 16: histories in which an item is watched, left without observers during a change, and watched again (identical refresh stays silent, a change back to the value reported last fires); blocking_declarations_are_made_for_each_connection. Round 17: an observer applies another update from inside its callback; every item the outer update changed still notifies exactly once.',
     note="Trusted: Lean kernel; translator; correspondence harness. Temperature items: the model compares stored words, the code compares values converted "
          "with the current unit (equivalent; the conversion itself is C14). An observer that raises aborts the remaining notifications (Python semantics) - excluded. "
          "Patches running past byte 1023 are outside the hypotheses (the real code would grow the block).",
@@ -278,6 +278,54 @@ def run_reentrant(cls_name, live, reacts, changes=2):
     return out
 
 
+def run_nested_update(cls_name, nested_at):
+    """REAL structure, three watched byte items A (10), B (20), C (30): ONE update changes A and B; the observer of `nested_at` applies
+    another update (to C) from inside its callback - what a client does that reacts to a change by writing. Returns the calls in order."""
+    import importlib
+    mod = importlib.import_module("geckolib.driver.spastruct" if cls_name == "sync" else "geckolib.driver.async_spastruct")
+    from geckolib.driver.accessor import GeckoByteStructAccessor
+
+    async def noop(*a):
+        pass
+    st = mod.GeckoStructure(lambda *a: None) if cls_name == "sync" else mod.GeckoAsyncStructure(lambda *a: None, noop)
+    accs = {"A": GeckoByteStructAccessor(st, "A", 10, None), "B": GeckoByteStructAccessor(st, "B", 20, None), "C": GeckoByteStructAccessor(st, "C", 30, None)}
+    st.accessors = dict(accs)
+    st.set_status_block(bytes(1024))
+    calls = []
+
+    def mk(k):
+        def cb(sender, old, new):
+            calls.append([k, old, new, accs[k].value])
+            if k == nested_at and not any(c[0] == "C" for c in calls):
+                st.replace_status_block_segment(30, bytes([7]))
+        return cb
+    for k in accs:
+        accs[k].watch(mk(k))
+    seg = bytearray(12)
+    seg[0], seg[10] = 1, 2
+    st.replace_status_block_segment(10, bytes(seg))
+    return calls
+
+
+def check_nested_updates(ctx, only=None):
+    """an observer that applies another update from inside its callback: every item the outer update changed still notifies exactly once"""
+    for cls_name in ("sync", "async"):
+        for nested_at in ("A", "B"):
+            if only is not None and only != [cls_name, nested_at]:
+                continue
+            try:
+                calls = run_nested_update(cls_name, nested_at)
+            except Exception as e:  # noqa
+                calls = [["raised", f"{type(e).__name__}: {e}"]]
+            ctx.count("evaluations")
+            ctx.hist("nested_updates", f"{cls_name}:{nested_at}")
+            want = sorted([["A", 0, 1, 1], ["B", 0, 2, 2], ["C", 0, 7, 7]])
+            if sorted(calls) != want:
+                ctx.violation(f"notify:nested-update:{cls_name}", {"kind": "nested-update", "case": [cls_name, nested_at]},
+                              {"calls (item, old, new, value read in the callback), in any order": want}, {"calls": calls})
+                return
+
+
 def check_reentrant(ctx, lines, impl_ans):
     """observers that change the registration list from inside their callback: real code vs the dispatch model, and the property read
     directly (a removed observer is never called; an observer that stays registered is called exactly once per change)"""
@@ -524,6 +572,10 @@ def run(ctx):
     except Exception as e:  # noqa
         ctx.obligation_broken("harness:reentrant-observers", f"{type(e).__name__}: {e}")
     try:
+        check_nested_updates(ctx)
+    except Exception as e:  # noqa
+        ctx.obligation_broken("harness:nested-updates", f"{type(e).__name__}: {e}")
+    try:
         check_reconnected_object(ctx)
     except Exception as e:  # noqa
         ctx.obligation_broken("harness:reconnected-object", f"{type(e).__name__}: {e}")
@@ -676,6 +728,11 @@ def replay(inp):
         c = Ctx("C03", "quick", 0)
         check_reconnected_object(c)
         return bool(c.violations), c.violations[0]["observed"] if c.violations else "every change notified exactly once on every connection"
+    if inp.get("kind") == "nested-update":
+        from common import Ctx
+        c = Ctx("C03", "quick", 0)
+        check_nested_updates(c, only=inp["case"])
+        return bool(c.violations), c.violations[0]["observed"] if c.violations else "every changed item notified once"
     if inp.get("kind") == "reentrant":
         reacts = {int(k): tuple(v) for k, v in inp["reactions"].items()}
         got = run_reentrant(inp["structure"], inp["observers"], reacts)
